@@ -6,6 +6,7 @@ import Q1t.Proofs.UnitariesQ8
 import Q1t.Proofs.UnitariesPrim
 import Q1t.Proofs.UnitariesTerm
 import Q1t.Proofs.ParamLive
+import Q1t.Proofs.AmpComplex
 /-!
 # C05 — library gates denote their documented unitaries
 
@@ -123,6 +124,16 @@ theorem ordered_product_unitary (h : LawfulAmp α P) {n : Nat} (hn : 0 < n) (fac
     Unitary P n (factors.foldl (fun acc F => LMat.mul F acc) (LMat.identity n)) :=
   Q1t.Proofs.Unitaries.ordered_product_unitary h hn factors _ (unitary_identity h hn) hf
 
+/-- Documented semantics of `Composite` and `Loop`: the ordered product of embedded documented
+factors, and its `k`-th power, are unitary as soon as every embedded factor is (that `embed` of a
+unitary on distinct in-range qubits is unitary is C04's side). -/
+theorem spec_composite_loop_unitary (h : LawfulAmp α P) {n : Nat} (label nm : String) (k : Nat)
+    (ops : OpList P)
+    (hops : OpsAll (fun g bits => Unitary P (2 ^ n) (embed n bits (specMatrix g : LMat α))) ops) :
+    Unitary P (2 ^ n) (specMatrix (.Composite nm n ops) : LMat α) ∧
+    Unitary P (2 ^ n) (specMatrix (.Loop label k nm n ops) : LMat α) :=
+  Q1t.Proofs.Unitaries.spec_composite_loop_unitary h label nm k ops hops
+
 end general
 
 /-! ## (4) a parameter passed by reference contributes its current value -/
@@ -154,6 +165,13 @@ theorem param_live_sensitive (s s' : Store V) (c : Nat)
   reference_sensitive s s' c hne
 
 end param
+
+/-! ## (5) the complex numbers are a model of the laws -/
+
+/-- ℂ with the real cosine and sine (`P = ℝ`, `phalf θ = θ/2`, `padd = +`) satisfies `LawfulAmp` and
+`LawfulHalf`: all general theorems above hold for the complex gate matrices at all real parameters. -/
+theorem complex_is_model : LawfulAmp ℂ ℝ ∧ LawfulHalf ℂ ℝ :=
+  ⟨Q1t.AmpComplex.lawful, Q1t.AmpComplex.lawfulHalf⟩
 
 /-! ## non-vacuity and unfolding of the auxiliary notions -/
 
